@@ -384,12 +384,15 @@ func writeFileAtomic(filename string, bs []byte) (err error) {
 	// file: a name close to the limit must stay writable.)
 	f, err := os.CreateTemp(filepath.Dir(filename), ".gopatch.*.tmp")
 	if err != nil {
-		return err
+		return fmt.Errorf("write %q: %w", filename, err)
 	}
 	tmp := f.Name()
 	defer func() {
 		if err != nil {
 			_ = os.Remove(tmp)
+			// The error names the temporary file, not the one
+			// that could not be rewritten.
+			err = fmt.Errorf("write %q: %w", filename, err)
 		}
 	}()
 
